@@ -630,3 +630,334 @@ class WOFF2BBoxCodec(Contract):
         return And(*cs)
 
     ensures = [prop("box-stored-exactly-when-needed-and-read-back", lambda a, old, r: WOFF2BBoxCodec._post(a, r))]
+
+
+@contract
+class WOFF2OverlapSimpleFlagCodec(Contract):
+    """WOFF2GlyfTable._encodeOverlapSimpleFlag then _decodeOverlapSimpleFlag for glyph ids 0, 7, 8
+    and 14 (whose bit is already set) and EVERY first flag byte: the glyph's bit (bit 7 - g % 8 of byte g // 8) is set exactly
+    when flags[0] has OVERLAP_SIMPLE (0x40), no other bit of the bitmap changes; reading it back
+    into a glyph whose flags lack the bit (the triplet decoder only produces on-curve bits)
+    restores it exactly when it was there, and changes no other flag or flag bit; a glyph with
+    no contours is never looked at; a font without the bitmap (decoder's None) changes nothing."""
+    module = "fontTools.ttLib.woff2"
+    qualname = "WOFF2GlyfTable._decodeOverlapSimpleFlag"
+    props = ("C04", "C15")
+    variants = tuple((gid, nc) for gid in (0, 7, 8, 14) for nc in (2, 0, -1)) + (("no-bitmap", 2),)
+    level = "PF"
+
+    def rebind(self):
+        return std("struct", "len", "bytes", "bytearray", "array", "int")
+
+    def args(self, S, variant):
+        gid, nc = variant
+        f0 = S.int("flags0", 0, 255)
+        on = [S.int("on%d" % i, 0, 1) for i in range(3)]
+
+        class _G:
+            pass
+        g = _G()
+        g.numberOfContours = nc
+        g.flags = [f0, 1, 0]
+        enc = self.mod.WOFF2GlyfTable.__new__(self.mod.WOFF2GlyfTable)
+        enc.overlapSimpleBitmap = [0x24, 0x42]
+        return dict(self=enc, glyphID=7 if gid == "no-bitmap" else gid, glyph=g, _f0=f0, _on=on, _G=_G, _gid=gid, _nc=nc)
+
+    def call(self, f, a):
+        cls = type(a.self)
+        cls._encodeOverlapSimpleFlag(a.self, a.glyph, a.glyphID)
+        bitmap = list(a.self.overlapSimpleBitmap)
+        dec = cls.__new__(cls)
+        dec.overlapSimpleBitmap = None if a._gid == "no-bitmap" else list(bitmap)
+        back = a._G()
+        back.numberOfContours = a._nc
+        back.flags = list(a._on)
+        f(dec, back, a.glyphID)
+        return bitmap, back.flags, dec.overlapSimpleBitmap
+
+    @staticmethod
+    def _post(a, r):
+        bitmap, flags, after = r
+        old = [0x24, 0x42]
+        gid = a.glyphID
+        byte, mask = gid >> 3, 0x80 >> (gid & 7)
+        has = eq((a._f0 // 64) % 2, 1) if a._nc > 0 else False
+        cs = [len(bitmap) == 2, len(flags) == 3]
+        for i, b in enumerate(bitmap):
+            cs.append(eq(b, Ite(has, old[i] | mask, old[i])) if i == byte else eq(b, old[i]))
+        if a._gid == "no-bitmap":
+            cs.append(after is None)
+            cs += [eq(x, y) for x, y in zip(flags, a._on)]
+        else:
+            cs += [eq(x, y) for x, y in zip(after, bitmap)]
+            stored = Or(has, bool(old[byte] & mask)) if a._nc > 0 else False
+            cs.append(eq(flags[0], Ite(stored, a._on[0] + 64, a._on[0])))
+            cs += [eq(x, y) for x, y in zip(flags[1:], a._on[1:])]
+        return And(*cs)
+
+    ensures = [prop("overlap-bit-stored-and-read-back", lambda a, old, r: WOFF2OverlapSimpleFlagCodec._post(a, r))]
+
+
+@contract
+class WOFF2ContourEndPointsRoundTrip(Contract):
+    """WOFF2GlyfTable._encodeCoordinates then _decodeCoordinates for one to three contours with
+    EVERY strictly increasing end-point list (contour sizes 1..65535): the nPoints stream holds one
+    255UInt16 per contour, the decoder consumes exactly those bytes (what follows is left for the
+    next glyph) and rebuilds the same endPtsOfContours; both sides then handle the triplets
+    and the instructions, in that order, once each; a cubic glyph is refused, never written."""
+    module = "fontTools.ttLib.woff2"
+    qualname = "WOFF2GlyfTable._decodeCoordinates"
+    props = ("C04", "C15")
+    variants = (1, 2, 3, "cubic")
+    level = "PF"
+    deadline_s = 600
+    assumptions = ("_encodeTriplets/_decodeTriplets/_encodeInstructions/_decodeInstructions are recorders here (own contracts: TripletEncode, TripletDecode, WOFF2InstructionsRoundTrip)",)
+    only_raises = (NotImplementedError,)
+    expect_exceptional_only = ("cubic",)
+
+    def rebind(self):
+        return std("struct", "len", "bytes", "bytearray", "array", "int", "byteord", "bytechr")
+
+    def args(self, S, variant):
+        n = 2 if variant == "cubic" else variant
+        sizes = [S.int("size%d" % i, 1, 65535) for i in range(n)]
+        ends, e = [], -1
+        for s in sizes:
+            e = e + s
+            ends.append(e)
+
+        class _G:
+            pass
+        g = _G()
+        g.numberOfContours = n
+        g.endPtsOfContours = ends
+        g.flags = [1, 0, 1] + ([0x80] if variant == "cubic" else [])
+        calls = []
+        cls = self.mod.WOFF2GlyfTable
+
+        class _T(cls):
+            def _encodeTriplets(self, glyph):
+                calls.append(("enc-triplets", glyph))
+
+            def _encodeInstructions(self, glyph):
+                calls.append(("enc-instructions", glyph))
+
+            def _decodeTriplets(self, glyph):
+                calls.append(("dec-triplets", glyph, list(glyph.endPtsOfContours), self.nPointsStream))
+
+            def _decodeInstructions(self, glyph):
+                calls.append(("dec-instructions", glyph))
+        enc = _T.__new__(_T)
+        enc.nPointsStream = b""
+        return dict(self=enc, glyph=g, _ends=ends, _n=n, _G=_G, _T=_T, _calls=calls, _cubic=variant == "cubic")
+
+    raises = {NotImplementedError: lambda a: a._cubic}
+
+    def call(self, f, a):
+        T = a._T
+        real_pack, lens = self.mod.pack255UShort, []
+
+        def pack(value):
+            out = real_pack(value)
+            lens.append(len(_items(out)))
+            return out
+        self.mod.pack255UShort = pack
+        try:
+            T._encodeCoordinates(a.self, a.glyph)
+        except NotImplementedError:
+            assert a.self.nPointsStream == b"" and not a._calls, "refused after writing"
+            raise
+        finally:
+            self.mod.pack255UShort = real_pack
+        a._lens = lens
+        stream = a.self.nPointsStream
+        dec = T.__new__(T)
+        dec.nPointsStream = stream + b"NEXT"
+        back = a._G()
+        back.numberOfContours = a._n
+        f(dec, back)
+        return stream, back, dec.nPointsStream
+
+    @staticmethod
+    def _post(a, r):
+        stream, back, rest = r
+        calls = a._calls
+        if [c[0] for c in calls] != ["enc-triplets", "enc-instructions", "dec-triplets", "dec-instructions"]:
+            return False
+        if calls[0][1] is not a.glyph or calls[1][1] is not a.glyph or calls[2][1] is not back or calls[3][1] is not back:
+            return False
+        bs = _items(stream)
+        cs = []
+        pos = 0
+        if len(a._lens) != a._n:
+            return False
+        for i in range(a._n):
+            # a._lens: how many bytes pack255UShort returned for contour i (concrete on each path)
+            v, used = spec_255_decode(bs[pos:pos + 3])
+            want = a._ends[i] - (a._ends[i - 1] if i else -1)
+            cs += [eq(v, want), eq(used, a._lens[i])]
+            pos += a._lens[i]
+        cs.append(pos == len(bs))
+        cs.append(rest == b"NEXT")
+        cs.append(len(back.endPtsOfContours) == a._n)
+        cs += [eq(x, y) for x, y in zip(back.endPtsOfContours, a._ends)]
+        cs += [eq(x, y) for x, y in zip(calls[2][2], a._ends)]          # the triplet decoder already sees them
+        cs.append(calls[2][3] == b"NEXT")                                 # ... and the stream already advanced
+        return And(*cs)
+
+    ensures = [prop("one-255UInt16-per-contour-and-read-back", lambda a, old, r: WOFF2ContourEndPointsRoundTrip._post(a, r))]
+
+
+@contract
+class WOFF2InstructionsRoundTrip(Contract):
+    """WOFF2GlyfTable._encodeInstructions then _decodeInstructions for programs of 0, 5, 253, 506
+    and 762 bytes (one per 255UInt16 spelling), content symbolic where short: the glyph stream
+    gains exactly the 255UInt16 of the length, the instruction stream exactly the bytes, both
+    appended after what earlier glyphs wrote; the decoder hands exactly those bytes to the new
+    glyph's program and leaves both streams at the next glyph's data."""
+    module = "fontTools.ttLib.woff2"
+    qualname = "WOFF2GlyfTable._decodeInstructions"
+    props = ("C04", "C15")
+    variants = (0, 5, 253, 506, 762)
+    level = "PF"
+    assumptions = ("ttProgram.Program is a recorder here (bytecode is opaque to the WOFF2 transform)",)
+
+    def rebind(self):
+        outer = self
+
+        class _Program:
+            def fromBytecode(self, data):
+                outer._got.append(data)
+
+        class _tt:
+            Program = _Program
+        return dict(std("struct", "len", "bytes", "bytearray", "array", "int", "byteord", "bytechr"), ttProgram=_tt)
+
+    def args(self, S, variant):
+        self._got = []
+        n = variant
+        code = S.bytes("code", n) if n <= 5 else bytes((i * 37 + 11) % 256 for i in range(n))
+
+        class _P:
+            def getBytecode(self):
+                return code
+
+        class _G:
+            pass
+        g = _G()
+        g.program = _P()
+        enc = self.mod.WOFF2GlyfTable.__new__(self.mod.WOFF2GlyfTable)
+        enc.glyphStream, enc.instructionStream = b"GS", b"IS"
+        return dict(self=enc, glyph=g, _code=code, _n=n, _G=_G)
+
+    def call(self, f, a):
+        cls = type(a.self)
+        cls._encodeInstructions(a.self, a.glyph)
+        gs, ins = a.self.glyphStream, a.self.instructionStream
+        dec = cls.__new__(cls)
+        dec.glyphStream, dec.instructionStream = gs[2:] + b"NEXTG", ins[2:] + b"NEXTI"
+        back = a._G()
+        f(dec, back)
+        return gs, ins, back, dec.glyphStream, dec.instructionStream, list(self._got)
+
+    @staticmethod
+    def _post(a, r):
+        gs, ins, back, grest, irest, got = r
+        g, i = _items(gs), _items(ins)
+        if g[:2] != list(b"GS") or i[:2] != list(b"IS") or len(got) != 1 or not hasattr(back, "program"):
+            return False
+        v, used = spec_255_decode(g[2:5])
+        return And(eq(v, a._n), eq(used, len(g) - 2), len(i) - 2 == a._n, ins[2:] == a._code,
+                   got[0] == a._code, grest == b"NEXTG", irest == b"NEXTI")
+
+    ensures = [prop("length-then-bytes-and-read-back", lambda a, old, r: WOFF2InstructionsRoundTrip._post(a, r))]
+
+
+@contract
+class WOFF2GlyphDispatch(Contract):
+    """WOFF2GlyfTable._encodeGlyph then _decodeGlyph for EVERY int16 numberOfContours: the count
+    is stored as one big-endian int16 at the glyph's slot of the nContour stream and read back
+    unchanged; an empty glyph (0) writes and reads nothing else; a composite (-1) goes
+    through components then bounding box; any other through coordinates, the overlap flag,
+    then the bounding box - the same steps, in the same order, with the same glyph id, on both
+    sides (the streams are positional: a step skipped or reordered on one side shifts every
+    later glyph)."""
+    module = "fontTools.ttLib.woff2"
+    qualname = "WOFF2GlyfTable._decodeGlyph"
+    props = ("C04",)
+    variants = (0, 2)
+    level = "PF"
+    assumptions = ("the per-part encoders/decoders are recorders here (own contracts: WOFF2ContourEndPointsRoundTrip, WOFF2OverlapSimpleFlagCodec, WOFF2BBoxCodec, GlyphComponentCompile/Decompile)",)
+
+    def rebind(self):
+        return std("struct", "len", "bytes", "bytearray", "array", "int", "byteord", "bytechr")
+
+    def args(self, S, variant):
+        gid = variant
+        nc = S.int("numberOfContours", -32768, 32767)
+        calls = []
+        cls = self.mod.WOFF2GlyfTable
+
+        class _G:
+            def isComposite(self):
+                return self.numberOfContours == -1
+        g = _G()
+        g.numberOfContours = nc
+
+        def rec(name, with_gid):
+            if with_gid == "first":
+                return lambda self, glyphID, glyph: calls.append((name, glyph, glyphID))
+            if with_gid == "last":
+                return lambda self, glyph, glyphID: calls.append((name, glyph, glyphID))
+            return lambda self, glyph: calls.append((name, glyph, None))
+
+        class _T(cls):
+            _encodeComponents = rec("e-components", None)
+            _encodeCoordinates = rec("e-coordinates", None)
+            _encodeOverlapSimpleFlag = rec("e-overlap", "last")
+            _encodeBBox = rec("e-bbox", "first")
+            _decodeComponents = rec("d-components", None)
+            _decodeCoordinates = rec("d-coordinates", None)
+            _decodeOverlapSimpleFlag = rec("d-overlap", "last")
+            _decodeBBox = rec("d-bbox", "first")
+
+            def getGlyphName(self, glyphID):
+                return "g%d" % glyphID
+
+            def __getitem__(self, name):
+                return {"g%d" % gid: g}[name]
+        enc = _T.__new__(_T)
+        enc.nContourStream = b"\x00\x05" * gid
+        return dict(self=enc, glyphID=gid, _g=g, _nc=nc, _T=_T, _calls=calls, _gid=gid)
+
+    def call(self, f, a):
+        T = a._T
+        T._encodeGlyph(a.self, a.glyphID)
+        stream = a.self.nContourStream
+        n_enc = len(a._calls)
+        dec = T.__new__(T)
+        its = _items(stream)
+        words = [its[2 * k] * 256 + its[2 * k + 1] for k in range(len(its) // 2)]
+        dec.nContourStream = [Ite(w >= 32768, w - 65536, w) if not isinstance(w, int) else (w - 65536 if w >= 32768 else w) for w in words]   # what array("h") + byteswap gives
+        back = f(dec, a.glyphID)
+        return stream, back, a._calls[:n_enc], a._calls[n_enc:]
+
+    @staticmethod
+    def _post(a, r):
+        stream, back, enc_calls, dec_calls = r
+        its = _items(stream)
+        if len(its) != 2 * a._gid + 2 or its[:2 * a._gid] != list(b"\x00\x05" * a._gid):
+            return False
+        w = its[-2] * 256 + its[-1]
+        kind_e = [c[0][2:] for c in enc_calls]
+        kind_d = [c[0][2:] for c in dec_calls]
+        shape = ([] if not kind_e else kind_e)
+        want = Ite(eq(a._nc, 0), 0, Ite(eq(a._nc, -1), 1, 2))
+        got = {(): 0, ("components", "bbox"): 1, ("coordinates", "overlap", "bbox"): 2}.get(tuple(shape), 3)
+        ok_objs = all(c[1] is a._g for c in enc_calls) and all(c[1] is back for c in dec_calls)
+        ok_gids = all(c[2] is None or c[2] == a._gid for c in enc_calls + dec_calls) and \
+            [c[2] is None for c in enc_calls] == [c[2] is None for c in dec_calls]
+        return And(eq(Ite(w >= 32768, w - 65536, w), a._nc), eq(back.numberOfContours, a._nc),
+                   kind_e == kind_d, eq(want, got), ok_objs, ok_gids)
+
+    ensures = [prop("count-stored-and-same-steps-both-sides", lambda a, old, r: WOFF2GlyphDispatch._post(a, r))]
